@@ -1459,6 +1459,16 @@ impl Formatter {
     }
   }
 
+  // A nested list; in text mode it is indented one level below its parent item.
+  fn sublist(&mut self, node: &MDList) -> String {
+    let s = self.list(node);
+    if self.html {
+      s
+    } else {
+      s.lines().map(|l| format!("  {}\n", l)).collect()
+    }
+  }
+
   pub fn check_list(&mut self, node: &CheckList) -> String {
     let mut lis = "".to_string();
     for (i, ((checked, item), sublist)) in node.iter().enumerate() {
@@ -1466,11 +1476,11 @@ impl Formatter {
       if self.html {
         lis = format!("{}<li class=\"mech-check-list-item\"><input type=\"checkbox\" {}>{}</li>", lis, if *checked { "checked" } else { "" }, it);
       } else {
-        lis = format!("{}* [{}] {}\n", lis, if *checked { "x" } else { " " }, it);
+        lis = format!("{}-[{}]{}\n", lis, if *checked { "x" } else { " " }, it.trim_end_matches('\n'));
       }
       match sublist {
         Some(sublist) => {
-          let sublist_str = self.list(sublist);
+          let sublist_str = self.sublist(sublist);
           lis = format!("{}{}", lis, sublist_str);
         },
         None => {},
@@ -1490,11 +1500,11 @@ impl Formatter {
       if self.html {
         lis = format!("{}<li class=\"mech-ol-list-item\">{}</li>",lis,it);
       } else {
-        lis = format!("{}{}. {}\n",lis,i+1,it);
+        lis = format!("{}{}.{}\n",lis,num.to_string(),it.trim_end_matches('\n'));
       }
       match sublist {
         Some(sublist) => {
-          let sublist_str = self.list(sublist);
+          let sublist_str = self.sublist(sublist);
           lis = format!("{}{}",lis,sublist_str);
         },
         None => {},
@@ -1514,11 +1524,12 @@ impl Formatter {
       match (bullet, self.html) {
         (Some(bullet_tok),true) => lis = format!("{}<li data-bullet=\"{}\" class=\"mech-list-item-emoji\">{}</li>",lis,bullet_tok.to_string(),it),
         (None,true) => lis = format!("{}<li class=\"mech-ul-list-item\">{}</li>",lis,it),
-        (_,false) => lis = format!("{}* {}\n",lis,it),
+        (Some(bullet_tok),false) => lis = format!("{}-({}) {}\n",lis,bullet_tok.to_string(),it.trim_end_matches('\n')),
+        (None,false) => lis = format!("{}- {}\n",lis,it.trim_end_matches('\n')),
       }
       match sublist {
         Some(sublist) => {
-          let sublist_str = self.list(sublist);
+          let sublist_str = self.sublist(sublist);
           lis = format!("{}{}",lis,sublist_str);
         },
         None => {},
